@@ -34,6 +34,13 @@ def run(tier, seed, res, lean):
     st = pmap(_static_shard, [(seed * 911 + i + 5, 30 if tier == 'quick' else 200) for i in range(shards)])
     for c in [c for o in st for c in o[1]][:4]:
         res.violations.append(Violation('c06-static-collision', c['msg'], {'suite': 'S-HASH-STATIC', **c}))
+    # explicit `Function(...)` bindings (positional / keyword / Silent in any written order): `FunctionEdge._make_hash` is the static hash as well -
+    # a non-silent input that does not change the hash is a collision of the static hashes of two different functions of the id
+    from .. import suite_hash as _sh
+    from .c05 import _explicit_shard
+    ef = pmap(_explicit_shard, [(seed * 641 + i + 3, 8 if tier == 'quick' else 60) for i in range(8)])
+    for p in [p for o in ef for p in o[1] if p.get('kind') == 'collision'][:3]:
+        res.violations.append(Violation('c06-explicit-function', p['msg'][:400], {'suite': 'S-HASH/explicit', **p}))
     # External layers with a marker that names the field: different methods of the wrapped object have different static hashes
     from .. import suite_external
     ext = pmap(suite_external.run_shard, [(seed * 67 + i + 1, 4 if tier == 'quick' else 30) for i in range(16)])
